@@ -150,6 +150,20 @@ class C01(Oracle):
             for a, b, what in ((sch.amplitude, sub.amplitude, "amplitude"), (sch.detuning, sub.detuning, "detuning")):
                 if type(a) is not type(b) or wf_params(a) != wf_params(b):
                     v.append(("C01/lengthened-params", f"{name}: {what} waveform changed beyond its duration: {wf_params(b)} -> {wf_params(a)}"))
+            # "only lengthened": the same waveform DEFINITION with the new duration,
+            # rebuilt here from the op (not with the library's change_duration)
+            specs = (op["pulse"]["amp"], op["pulse"]["det"]) if op["op"] == "add" else (None, op["wf"])
+            for spec, got, what in zip(specs, (sch.amplitude, sch.detuning), ("amplitude", "detuning")):
+                if spec is None or "d" not in spec or spec["w"] in ("blackman", "kaiser"):
+                    continue  # fixed-length or area-defined shapes: covered by the parameter comparison
+                try:
+                    ref = _arr(ops.build_wf(dict(spec, d=exp)).samples)
+                except Exception:  # noqa: BLE001
+                    continue
+                g = _arr(got.samples)
+                ctx.probe("lengthened_rebuilt")
+                if g.shape != ref.shape or not np.allclose(g, ref, rtol=1e-9, atol=1e-9):
+                    v.append(("C01/lengthened-samples", f"{name}: {what} of the lengthened pulse differs from the same {spec['w']} waveform defined over {exp} ns by {np.abs(g - ref).max() if g.shape == ref.shape else 'shape'}"))
         return v
 
     def must_accept(self, ctx, op, pre):
